@@ -365,6 +365,7 @@ pub fn resolve_inputs(spec: &str, seed: u64) -> Vec<Input> {
             "manyimp" => out.extend(many_import_inputs()),
             "offsets" => out.extend(offset_inputs()),
             "nocode" => out.extend(nocode_inputs()),
+            "noncanon" => out.extend(noncanonical_inputs()),
             "bodysizes" => out.extend(body_size_inputs(false)),
             "bodysizes-big" => out.extend(body_size_inputs(true)),
             "dwarfed" => out.extend(dwarfed_inputs(seed, f[1].parse().unwrap())),
@@ -383,6 +384,7 @@ pub fn resolve_inputs(spec: &str, seed: u64) -> Vec<Input> {
                 out.extend(fixture_inputs());
                 out.extend(offset_inputs());
                 out.extend(nocode_inputs());
+                out.extend(noncanonical_inputs());
             }
             "file" => {
                 let bytes = std::fs::read(f[1]).expect("input file");
@@ -1307,6 +1309,48 @@ pub fn nocode_inputs() -> Vec<Input> {
         "(module)",
     ];
     wats.iter().enumerate().map(|(k, w)| Input { id: format!("nocode-{}", k), bytes: wat::parse_str(w).unwrap(), source: format!("nocode:{}", k) }).collect()
+}
+
+/// single-memory modules that use the *encodings* of the multi-memory / memory64 proposals although they need neither:
+/// a memarg with the memory-index flag and index 0, a memory index as a padded LEB, a memarg offset in more than five
+/// LEB bytes.  Valid with those proposals on, invalid with only_stable_features.
+pub fn noncanonical_inputs() -> Vec<Input> {
+    use wasm_encoder as we;
+    let bodies: [(&str, Vec<u8>); 4] = [
+        // i32.const 0 ; i32.load align=2 with flag bit 6, memory 0, offset 0 ; drop
+        ("memarg-explicit-memory-0", vec![0x41, 0x00, 0x28, 0x42, 0x00, 0x00, 0x1a]),
+        // memory.size with the index as a two-byte LEB zero ; drop
+        ("memory-index-padded-leb", vec![0x3f, 0x80, 0x00, 0x1a]),
+        // i32.const 0 ; i32.load align=2 offset=0 written in six LEB bytes ; drop
+        ("memarg-offset-six-leb-bytes", vec![0x41, 0x00, 0x28, 0x02, 0x80, 0x80, 0x80, 0x80, 0x80, 0x00, 0x1a]),
+        // control: the canonical forms
+        ("canonical", vec![0x41, 0x00, 0x28, 0x02, 0x00, 0x1a, 0x3f, 0x00, 0x1a]),
+    ];
+    bodies
+        .iter()
+        .map(|(tag, raw)| {
+            let mut m = we::Module::new();
+            let mut t = we::TypeSection::new();
+            t.function([], []);
+            m.section(&t);
+            let mut f = we::FunctionSection::new();
+            f.function(0);
+            m.section(&f);
+            let mut mem = we::MemorySection::new();
+            mem.memory(we::MemoryType { minimum: 1, maximum: None, memory64: false, shared: false, page_size_log2: None });
+            m.section(&mem);
+            let mut e = we::ExportSection::new();
+            e.export("f", we::ExportKind::Func, 0);
+            m.section(&e);
+            let mut c = we::CodeSection::new();
+            let mut body = we::Function::new([]);
+            body.raw(raw.iter().copied());
+            body.instruction(&we::Instruction::End);
+            c.function(&body);
+            m.section(&c);
+            Input { id: format!("noncanon-{}", tag), bytes: m.finish(), source: format!("noncanon:{}", tag) }
+        })
+        .collect()
 }
 
 /// one module per post-MVP proposal that needs exactly (or at least) that proposal, plus MVP modules
